@@ -285,6 +285,10 @@ func (e *Exec) envEvent(op string) {
 
 // Run executes the whole trace. It returns the first violation, or nil.
 func (e *Exec) Run() (v *Violation) {
+	switch e.tr.Mode {
+	case "node":
+		return e.runNode()
+	}
 	// every run starts from an empty node pool, whatever ran before in this process
 	runtime.GC()
 	runtime.GC()
@@ -466,6 +470,7 @@ func (e *Exec) treeStep(i int, s *Step) (*Violation, bool) {
 	api.Buf2(s.Lay)
 	if b := api.Buf(); b != nil {
 		b.pad = s.Pad
+		b.pend = b.pend[:0]
 	}
 	own := opOracle(s.Op)
 
@@ -474,7 +479,10 @@ func (e *Exec) treeStep(i int, s *Step) (*Violation, bool) {
 	var idsBefore []uint64
 	mustNotChange := false
 	if e.or&oDigest != 0 {
-		_, present := ts.m.Get(s.K)
+		present := false
+		if s.Op == "ins" || s.Op == "del" {
+			_, present = ts.m.Get(s.K)
+		}
 		switch {
 		case isReadOnly(s.Op):
 			mustNotChange = true
@@ -563,7 +571,7 @@ func (e *Exec) treeStep(i int, s *Step) (*Violation, bool) {
 		if v := e.checkShapeStep(i, s, ts, mutated); v != nil {
 			return v, false
 		}
-	} else if mutated && e.or&(oSize|oMap) != 0 && e.or&oShape == 0 && ts.m.Len() <= 300 {
+	} else if mutated && e.or&oShape == 0 && ts.m.Len() <= 300 {
 		// probes only (never a verdict): which structural transitions the run reached
 		guard(func() { e.probeTransitions(ts, api.Dump(), s, sizeBefore) })
 	}
